@@ -1,3 +1,4 @@
+OVERLAY = ['codec', 'modes']   # overlay wrapper groups this property's harnesses call (overlay/<pkg>/zz_vp_<tag>.go)
 HARNESSES = {
     'StylingStep': dict(split={'op': 16}, quick=dict(params={'L': 6}), thorough=dict(params={'L': 9})),
     'DrawingStep': dict(split={'op': 16}, quick=dict(params={'L': 6}), thorough=dict(params={'L': 9})),
